@@ -244,9 +244,9 @@ def run(ctx):
     for name, data in configs.items():
         spec = dict(data['reset_function'])
         family = spec.pop('name')
-        jobs.append(('shipped:' + name, family, spec, ctx.pick(40, 400)))
+        jobs.append(('shipped:' + name, family, spec, ctx.pick(40, 2000)))
     for family, params in GRID:
-        jobs.append(('grid', family, params, ctx.pick(16, 120)))
+        jobs.append(('grid', family, params, ctx.pick(16, 600)))
     with reach(ctx, [getattr(reset_fs, n) for n in FAMILY_CONFIG]):
         for j, (tag, family, params, nseeds) in enumerate(jobs):
             seeds = [ctx.seed * 100000 + j * 1000 + s for s in range(nseeds)]
